@@ -726,6 +726,14 @@ func errorCases() []errCase {
 				for _, s := range []int{400, 404, 500, 503} {
 					r = append(r, errCase{Part: "error", Kind: "status", Status: s, Msg: m, API: apiName, CB: cb})
 				}
+				// every client- and server-error status, registered with IANA or not (net/http sends any of them), with the first message
+				if m == messages[0] {
+					for s := 400; s <= 599; s++ {
+						if s != 400 && s != 404 && s != 500 && s != 503 {
+							r = append(r, errCase{Part: "error", Kind: "status", Status: s, Msg: m, API: apiName, CB: cb})
+						}
+					}
+				}
 			}
 		}
 	}
@@ -895,6 +903,9 @@ func errFeature(e errCase, clause string) string {
 		if !same(base) {
 			return "status/message"
 		}
+		if http.StatusText(e.Status) == "" {
+			return "status/unregistered-code"
+		}
 		return fmt.Sprintf("status/%d", e.Status)
 	}
 	return "plain"
@@ -963,7 +974,7 @@ func evalVersion(c *hl.Ctx, vc verCase) {
 }
 
 func run(c *hl.Ctx) {
-	c.Rule("E3 bounded-exhaustive. Values: every leaf of the alphabet (info.leaves), every []interface{} of <=2 and every map[string]interface{} of <=2 keys from {a,code,data,server} over the leaves, every such container wrapped once more (slice, each key), two-child depth-2 values (container+leaf, container+container over a thinner container set), and in the thorough tier every 3-element slice and 3-key map, bare and wrapped under the key data; each x entry point {Data, WriteData} x callback {none, cb, a.b} through a ResponseRecorder, and (no callback) through ApiRequest against a loopback httptest.Server. Unmarshalable values (info.unmarshalable) at top level and nested. Errors: {SystemError, SystemComplexError, AppError} x codes x messages x entry points {Error, WriteError, CplxError, WriteCplxError} x callback; plain errors and plain errors with Status() in {400,404,500,503} x messages. WriteVersion over version strings x callback. Non-trivial = distinct (value | error case | version case) that was served and compared with the reference envelope (counted once per case, not per callback). " + queryRule + stringRule + reuseRule + configRule + methodRule)
+	c.Rule("E3 bounded-exhaustive. Values: every leaf of the alphabet (info.leaves), every []interface{} of <=2 and every map[string]interface{} of <=2 keys from {a,code,data,server} over the leaves, every such container wrapped once more (slice, each key), two-child depth-2 values (container+leaf, container+container over a thinner container set), and in the thorough tier every 3-element slice and 3-key map, bare and wrapped under the key data; each x entry point {Data, WriteData} x callback {none, cb, a.b} through a ResponseRecorder, and (no callback) through ApiRequest against a loopback httptest.Server. Unmarshalable values (info.unmarshalable) at top level and nested. Errors: {SystemError, SystemComplexError, AppError} x codes x messages x entry points {Error, WriteError, CplxError, WriteCplxError} x callback; plain errors and plain errors with Status() in {400,404,500,503} x messages, and with every Status() in 400..599 (registered or not) with the first message. WriteVersion over version strings x callback. Non-trivial = distinct (value | error case | version case) that was served and compared with the reference envelope (counted once per case, not per callback). " + queryRule + stringRule + reuseRule + configRule + methodRule)
 	c.Assume("the JSON model of each generated value is written down by the generator (no marshaller on the reference side); numbers are compared as exact rationals",
 		"encoding/json is trusted as the parser of response bodies", "net/http/httptest recorder and loopback server on 127.0.0.1 behave like a real server for a GET",
 		"media types are compared after mime.ParseMediaType (parameters not judged); the error-response body of plain errors is not judged beyond the client reporting an error",
